@@ -754,3 +754,134 @@ func consumesParam(c *Ctx, info *types.Info, defs map[types.Object][]ast.Expr, g
 	})
 	return consumes
 }
+
+func init() {
+	register(&Rule{
+		ID: "FR-best", Props: []string{"C10"}, Min: 1,
+		Doc: `no hit is dropped by the selection of non-overlapping best hits: in FilterBestMatch, starting from the initial value of the running best (an in-band sentinel, if any), every
+feasible path through the loop body for a hit m (any position, error count within the pattern length) either stores m as the running best or keeps the previous best for output —
+decided by path enumeration with linear arithmetic over the components of best and m; a sentinel that takes part in the overlap arithmetic makes the first hit beyond its value fall
+through both branches.`,
+		Run: runFRBest,
+	})
+}
+
+func runFRBest(c *Ctx, s *Sink) {
+	fd, p := c.FindFunc("pkg/obiapat", "(ApatPattern).FilterBestMatch")
+	key := "pkg/obiapat.(ApatPattern).FilterBestMatch:first-hit"
+	if fd == nil {
+		s.Undecided(nil, key, 0, "function not found")
+		return
+	}
+	info := p.TypesInfo
+	// the loop over the hits and its value variable
+	var loop *ast.RangeStmt
+	ast.Inspect(fd.Body, func(n ast.Node) bool {
+		if r, ok := n.(*ast.RangeStmt); ok && loop == nil && r.Value != nil {
+			loop = r
+		}
+		return true
+	})
+	if loop == nil {
+		s.Undecided(nil, key, fd.Pos(), "no loop over the hits")
+		return
+	}
+	mv := rootObj(info, loop.Value)
+	// the running best: an array variable assigned from m inside the loop
+	var best types.Object
+	ast.Inspect(loop.Body, func(n ast.Node) bool {
+		if as, ok := n.(*ast.AssignStmt); ok && len(as.Lhs) == 1 && len(as.Rhs) == 1 && rootObj(info, as.Rhs[0]) == mv {
+			if id, ok := ast.Unparen(as.Lhs[0]).(*ast.Ident); ok {
+				best = info.ObjectOf(id)
+			}
+		}
+		return true
+	})
+	if best == nil {
+		s.Undecided(nil, key, loop.Pos(), "no running best assigned from the current hit")
+		return
+	}
+	// initial value: composite literal of constants
+	defs := collectDefs(info, fd)
+	env := &linEnv{info: info, vars: map[types.Object]linForm{}, defs: defs, atoms: map[string]bool{}, lens: map[string]bool{}, elems: map[string]linForm{}}
+	sentinel := false
+	for _, d := range defs[best] {
+		if cl, ok := ast.Unparen(d).(*ast.CompositeLit); ok && d.Pos() < loop.Pos() {
+			sentinel = true
+			for i, el := range cl.Elts {
+				if v, ok := constInt(info, el); ok {
+					env.elems[fmt.Sprintf("%s[%d]", best.Name(), i)] = lfConst(v)
+				}
+			}
+		}
+	}
+	// boolean flags with a constant initial value (hasBest := false)
+	ast.Inspect(loop.Body, func(n ast.Node) bool {
+		if id, ok := n.(*ast.Ident); ok {
+			if v, ok := info.ObjectOf(id).(*types.Var); ok {
+				if b, ok := v.Type().Underlying().(*types.Basic); ok && b.Kind() == types.Bool && v.Pos() < loop.Pos() {
+					if ds := defs[v]; len(ds) >= 1 && ds[0] != nil {
+						if cid, ok := ast.Unparen(ds[0]).(*ast.Ident); ok && (cid.Name == "false" || cid.Name == "true") {
+							val := int64(0)
+							if cid.Name == "true" {
+								val = 1
+							}
+							env.vars[v] = lfConst(val)
+						}
+					}
+				}
+			}
+		}
+		return true
+	})
+	// boolean / other locals tested in the body are left unconstrained; the hit: position >= 0, 0 <= errors <= 64
+	mName := mv.Name()
+	base := linSys{
+		linLE(lfConst(0), lfAtom(mName+"[0]")),
+		linLE(lfAtom(mName+"[0]"), lfAtom(mName+"[1]")),
+		linLE(lfConst(0), lfAtom(mName+"[2]")),
+		linLE(lfAtom(mName+"[2]"), lfConst(64)),
+	}
+	type outcome struct {
+		kept bool
+		sys  linSys
+	}
+	kept := map[*linEnv]bool{}
+	final := linWalk([]linPath{{env: env, sys: base}}, loop.Body.List, func(lp linPath, st ast.Stmt) {
+		if as, ok := st.(*ast.AssignStmt); ok && len(as.Lhs) == 1 && len(as.Rhs) == 1 {
+			if rootObj(info, as.Lhs[0]) == best && rootObj(info, as.Rhs[0]) == mv {
+				kept[lp.env] = true
+			}
+		}
+	})
+	// linWalk clones environments at branches: a path kept m iff best's elements equal m's at the end
+	var lost []string
+	n := 0
+	for _, lp := range final {
+		n++
+		same := true
+		for k := 0; k < 3; k++ {
+			f, ok := lp.env.elems[fmt.Sprintf("%s[%d]", best.Name(), k)]
+			if !ok || len(f.co) != 1 || f.co[fmt.Sprintf("%s[%d]", mName, k)] != 1 || f.c != 0 {
+				same = false
+			}
+		}
+		if same {
+			continue
+		}
+		if lp.sys.infeasible() {
+			continue
+		}
+		var cs []string
+		for _, f := range lp.sys[len(base):] {
+			cs = append(cs, f.String()+" <= 0")
+		}
+		lost = append(lost, "{"+strings.Join(cs, ", ")+"}")
+	}
+	_ = kept
+	if len(lost) > 0 {
+		s.Fail(nil, key, loop.Pos(), fmt.Sprintf("starting from the sentinel value of %s, a hit %s can traverse the loop body without becoming the running best under the path condition %s: a site located beyond the sentinel's value with no earlier site is never reported", best.Name(), mName, strings.Join(lost, " or ")))
+	} else {
+		s.Pass(nil, key, loop.Pos(), fmt.Sprintf("%d path(s) from the initial state (sentinel: %v): the first hit always becomes the running best", n, sentinel))
+	}
+}
